@@ -39,8 +39,16 @@ func genPES(r *gen.Rand, sid int, ptsdts byte) ref.PES {
 		h.Extra = r.Bytes(255 - need)
 	}
 	h.Payload = r.Bytes(r.Intn(24))
+	if r.Chance(3) {
+		h.Payload = r.Bytes(r.Intn(6)) // a bounded PES packet with very little (or no) payload
+	}
 	if ref.PESNoOptionalHeader(h.StreamID) && len(h.Payload) == 0 {
 		h.Payload = r.Bytes(1 + r.Intn(8))
+	}
+	if r.Chance(2) {
+		// PES_packet_length as ISO defines it: the number of bytes that follow the field
+		b, _ := h.Bytes()
+		h.PacketLen = uint16(len(b) - 6)
 	}
 	return h
 }
@@ -136,6 +144,14 @@ func head(b []byte, n int) []byte {
 // carry puts payload bytes at the end of a packet with adaptation-field stuffing.
 func carry(r *gen.Rand, pay []byte, pusi bool) packet.Packet {
 	pk := ref.PayloadPacket(16+r.Intn(8000), r.Intn(16), pusi, pay)
+	// header bits the condition does not mention: scrambling control, priority, error indicator
+	pk[3] |= byte(r.PickInt([]int{0, 0, 1, 2, 3})) << 6
+	if r.Chance(4) {
+		pk[1] |= 0x20
+	}
+	if r.Chance(8) {
+		pk[1] |= 0x80
+	}
 	return packet.Packet(pk)
 }
 
